@@ -71,6 +71,16 @@ def fresh(p, entry):
         # of the mutation space, so that the current sequence differs from the recorded input
         np.random.seed(p["np_seed"] + 1)
         problem.sequence = problem.mutation_space.apply_random_mutations(3, problem.sequence)
+    if p.get("outside"):
+        # the user assigned a sequence that disagrees with a single-variant segment of the space: a failed
+        # exhaustive search must still give back exactly that sequence
+        det = [(seg, v) for seg, v in problem.mutation_space.determined_segments if seg[1] > seg[0]]
+        if not det:
+            raise ValueError("no determined segment")
+        (a, b), v = det[p["np_seed"] % len(det)]
+        i = a + p["np_seed"] % (b - a)
+        s_ = problem.sequence
+        problem.sequence = s_[:i] + {"A": "C", "C": "G", "G": "T", "T": "A"}[s_[i]] + s_[i + 1:]
     return problem
 
 
@@ -165,6 +175,8 @@ def impl_case(case):
     if r["code"] == 1 and entry == "resolve_exhaustive" and problem.sequence != start:
         res["bad"] = ("natural NoSolutionError", "the failed exhaustive search did not restore the sequence it started from")
         return res
+    if p.get("outside"):
+        return res          # restoration only: the start itself is outside the hard restrictions
     if r["code"] == 1:
         why = usable(problem, n0, before0, cids0)
         if why:
@@ -282,6 +294,10 @@ def gen_cases(rng, tier):
         p["np_seed"] = p["np_seed"] | 1          # odd seed: the problem is moved inside its space first
         entry = rng.choice(["resolve_exhaustive", "resolve_exhaustive", "resolve_random", "optimize_exhaustive"])
         cases.append(("light", json.dumps(p, sort_keys=True), entry, tier))
+    for _ in range(2 * N):
+        p = c06.gen_small(rng)
+        p["outside"] = True
+        cases.append(("light", json.dumps(p, sort_keys=True), "resolve_exhaustive", tier))
     return cases, {}
 
 
